@@ -24,6 +24,11 @@ func (e *entry[K, V]) String() string {
 type node[K comparable, V Conn] struct {
 	next *entry[K, V]
 	prev *entry[K, V]
+
+	// removed is set once the entry has been unlinked from the list this node
+	// belongs to, so that a second removal (e.g. by the expiration callback
+	// racing with Take or an eviction) is a no-op.
+	removed bool
 }
 
 type list[K comparable, V Conn] struct {
@@ -49,6 +54,11 @@ func (l *list[K, V]) appendEntry(ent *entry[K, V], node func(*entry[K, V]) *node
 
 func (l *list[K, V]) removeEntry(ent *entry[K, V], node func(*entry[K, V]) *node[K, V]) {
 	n := node(ent)
+	if n.removed {
+		return
+	}
+	n.removed = true
+
 	if l.head == ent {
 		l.head = n.next
 	}
